@@ -524,6 +524,8 @@ type c17DocGen struct {
 	escCR    bool // end of line may be written "&#13;&#10;"
 	entities int  // percentage of characters written as entities
 	lastRaw  byte
+	lastK    string
+	lastV    string
 }
 
 var c17Ints = []string{"0", "1", "-1", "+5", "007", "-0", "2147483647", "2147483648", "-2147483648", "-2147483649", "4294967296",
@@ -531,7 +533,7 @@ var c17Ints = []string{"0", "1", "-1", "+5", "007", "-0", "2147483647", "2147483
 var c17Bools = []string{"1", "0", "t", "f", "T", "F", "true", "false", "True", "False", "TRUE", "FALSE", "tRUE", "yes", "no", "Y", "on", "tr", "truee", "2"}
 var c17Words = []string{"tcp -h 127.0.0.1 -p 19386 -t 60000", "/usr/local/app/tars/app_log/", "a=b", "a = b=c", "==", "x#y", "# not a comment", "a<b", "a&b", "a&amp;b", "1 < 2 > 0", "]]", "]]>", "a]]>b",
 	"\"q\"", "'s'", "a\tb", "a;b", "tars.tarsnode.ServerObj@tcp -h 10.0.0.1 -p 19386", "%d", "\\n", "<tag>", "</a>", "&#65;", "C:\\x", "a/b", "~", "\x7f"}
-var c17Utf8 = []string{"héllo", "日本語", "ключ=значение", "a\u00a0b", "€", "\U0001F600", "\u2028x"}
+var c17Utf8 = []string{"héllo", "日本語", "ключ=значение", "a\u00a0b", "€", "\U0001F600", "\u2028x", "\u00a0v\u00a0", "\u3000x\u3000", "\u0085y", "z\u2003", "\ufeffq", "\ufffd"}
 var c17DomNames = []string{"tars", "application", "server", "client", "a", "b", "A", "a1", "a.b", "a-b", "_x", "x_1.2-3", "Tars", "root", "Obj", "enableset"}
 var c17KeyNames = []string{"k", "k1", "k2", "key", "locator", "node", "log", "K", "app", "server.name", "a b", "x-y", "x>y", "q\"", "p;", "e]", "k!", "t:1", "a&b", "100", "-", ".", "é"}
 
@@ -642,6 +644,9 @@ func (g *c17DocGen) key() string {
 
 func (g *c17DocGen) value() string {
 	var v string
+	if g.utf8 && g.rng.Intn(3) == 0 {
+		return g.pick(c17Utf8)
+	}
 	switch r := g.rng.Intn(20); {
 	case r < 5:
 		v = g.pick(c17Ints)
@@ -687,8 +692,15 @@ func (g *c17DocGen) body(node *c17Node, depth int, nextIsTag bool) {
 				k = g.pick(c17DomNames)
 			}
 			form := g.rng.Intn(12)
+			if g.lastK != "" && g.rng.Intn(8) == 0 { // the same line again
+				k, v, form = g.lastK, g.lastV, 2
+			}
+			g.lastK, g.lastV = k, v
 			var line bytes.Buffer
 			w1, w2 := g.ws(), g.ws()
+			if form == 2 {
+				w1, w2 = "", ""
+			}
 			switch form {
 			case 0: // key only
 				line.WriteString(k)
@@ -952,7 +964,7 @@ func c17Soup(rng *rand.Rand, words []string, extra []string, extraPct int, maxLe
 func c17Balanced(rng *rand.Rand, depth int, sb *bytes.Buffer) {
 	n := rng.Intn(5)
 	names := []string{"a", "b", "k", "a.b-c"}
-	texts := []string{"k=v", "k=w", "a=1", "b", "k", "a", "=x", "#k=z", "\n", "\n", " ", "\t", "a = 2 ", "b==", "&#10;", "&#13;", "&#13;\n", "&#32;", "\r", "k=&#32;v&#9;", "&amp;=&lt;", "x/y=1", "x<y=2"}
+	texts := []string{"k=v", "k=w", "a=1", "b", "k", "a", "=x", "#k=z", "\n", "\n", " ", "\t", "a = 2 ", "b==", "&#10;", "&#13;", "&#13;\n", "&#32;", "\r", "k=&#32;v&#9;", "&amp;=&lt;", "x/y=1", "x<y=2", "k=v&#13; ", "&#13;k=v", " &#13; ", "k=&#13;v&#13;", "k=v&#13;\t", "a&#13;=1"}
 	for i := 0; i < n; i++ {
 		if rng.Intn(3) == 0 && depth < 4 {
 			nm := names[rng.Intn(len(names))]
